@@ -61,7 +61,66 @@ def signature_of(lines, impl, model, diff):
     return ("lifecycle-trace-differs", "impl %r, model %r" % (x, y))
 
 
+
+def muted_interpolated_cases(ctx):
+    """'a muted track emits no further events' also for interpolated control tracks (not in the scheduler model):
+    while the track is muted no control message may reach the device; after unmute it resumes (oracle on the
+    implementation alone)."""
+    from .. import common
+    common.ensure_repo_on_path()
+    import isobar as iso
+    from isobar.io.output import OutputDevice
+    r = ctx.rng
+
+    class Rec(OutputDevice):
+        def __init__(self):
+            super().__init__()
+            self.calls = []
+
+        def control(self, control=0, value=0, channel=0):
+            self.calls.append((control, value, channel))
+    for i in range(ctx.scale(80, 2000)):
+        tpb = r.choice([2, 4, 8, 10, 24, 96])
+        dev = Rec()
+        tl = iso.Timeline(120, output_device=dev, clock_source=iso.DummyClock(ticks_per_beat=tpb))
+        npts = r.randint(3, 7)
+        vals = [r.randint(0, 127) for _ in range(npts)]
+        durs = [r.randint(1, 3 * tpb) / tpb for _ in range(npts)]
+        mode = r.choice(["linear", "cosine", "none"])
+        kw = {} if mode == "none" else {"interpolate": mode}
+        tr = tl.schedule({"control": 7, "value": iso.PSequence(vals, 1), "duration": iso.PSequence(durs, 1), "channel": 0}, **kw)
+        total = int(round(sum(durs) * tpb)) + 3
+        m0 = r.randint(0, max(0, total - 3))
+        m1 = r.randint(m0 + 1, total)
+        while_muted = 0
+        after = 0
+        for j in range(total):
+            if j == m0:
+                tr.mute()
+            if j == m1:
+                tr.unmute()
+            before = len(dev.calls)
+            try:
+                tl.tick()
+            except StopIteration:
+                break
+            n_new = len(dev.calls) - before
+            if m0 <= j < m1:
+                while_muted += n_new
+            elif j >= m1:
+                after += n_new
+        ctx.case(("muted-interp", tpb, tuple(vals), tuple(durs), mode, m0, m1), nontrivial=m1 - m0 >= 2, validated=False,
+                 sample={"muted_interpolated": {"tpb": tpb, "mode": mode, "muted_ticks": [m0, m1]}} if i < 2 else None)
+        ctx.count("muted-interp:" + mode)
+        if while_muted:
+            ctx.violation("C06:muted-track-emitted:interpolate=%s" % mode,
+                          "a muted %s control track sent %d control message(s) between ticks %d and %d (tpb %d, values %s, durations %s)" % (
+                              mode, while_muted, m0, m1, tpb, vals, durs),
+                          {"suite": "muted-interp", "tpb": tpb, "values": vals, "durations_beats": durs, "mode": mode, "mute": [m0, m1]})
+
+
 def run(ctx):
+    muted_interpolated_cases(ctx)
     sched_suite.run_suite(ctx, PROF, ctx.scale(2500, 150000), "c06", [limit_oracle], nontrivial, signature_of)
 
 
